@@ -121,6 +121,103 @@ func init() {
 		"runtime.KeepAlive", "runtime.Gosched"} {
 		models[n] = noop
 	}
+	// timers on the virtual clock (sched.go): a timer channel is filled when every thread is blocked
+	// and this timer has the earliest deadline
+	mkTimer := func(periodic bool) modelFn {
+		return func(e *Engine, st *State, args []Value, call *ssa.Call, pos token.Pos) Value {
+			tt := call.Type().Underlying().(*types.Pointer).Elem()
+			chT := tt.Underlying().(*types.Struct).Field(0).Type()
+			o := newObjFor(tt)
+			o.slots[0] = Pointer{obj: e.newTimerChan(st, chT, term(args[0]), periodic), off: BV(64, 0)}
+			modelsUsed["time.NewTimer/NewTicker on the virtual clock"]++
+			return Pointer{obj: st.alloc(o), off: BV(64, 0)}
+		}
+	}
+	models["time.NewTimer"] = mkTimer(false)
+	models["time.NewTicker"] = mkTimer(true)
+	models["time.After"] = func(e *Engine, st *State, args []Value, call *ssa.Call, pos token.Pos) Value {
+		return Pointer{obj: e.newTimerChan(st, call.Type(), term(args[0]), false), off: BV(64, 0)}
+	}
+	timerIdx := func(st *State, v Value) int {
+		p, ok := v.(Pointer)
+		if !ok || p.obj == 0 {
+			return -1
+		}
+		c, ok := st.obj(p.obj).slots[0].(Pointer)
+		if !ok || c.obj == 0 {
+			return -1
+		}
+		return st.timerOf(c.obj)
+	}
+	stopTimer := func(e *Engine, st *State, args []Value, call *ssa.Call, pos token.Pos) Value {
+		i := timerIdx(st, args[0])
+		if i < 0 {
+			return Bool(false)
+		}
+		st.timers = append([]timerRec(nil), st.timers...)
+		was := st.timers[i].armed
+		st.timers[i].armed = false
+		st.wobj(st.timers[i].ch).vals = nil // Go 1.23 semantics: no stale tick is received after Stop/Reset
+		return Bool(was)
+	}
+	resetTimer := func(e *Engine, st *State, args []Value, call *ssa.Call, pos token.Pos) Value {
+		i := timerIdx(st, args[0])
+		if i < 0 {
+			panic(unsupported{"Reset of a timer not created by NewTimer/NewTicker"})
+		}
+		st.timers = append([]timerRec(nil), st.timers...)
+		was := st.timers[i].armed
+		st.timers[i].armed = true
+		st.timers[i].deadline = Bin("bvadd", st.now(), term(args[1]))
+		if st.timers[i].period != nil {
+			st.timers[i].period = term(args[1])
+		}
+		st.wobj(st.timers[i].ch).vals = nil
+		return Bool(was)
+	}
+	models["(*time.Timer).Stop"] = stopTimer
+	models["(*time.Timer).Reset"] = resetTimer
+	models["(*time.Ticker).Stop"] = func(e *Engine, st *State, args []Value, call *ssa.Call, pos token.Pos) Value {
+		stopTimer(e, st, args, call, pos)
+		return TupleV{}
+	}
+	models["(*time.Ticker).Reset"] = func(e *Engine, st *State, args []Value, call *ssa.Call, pos token.Pos) Value {
+		resetTimer(e, st, args, call, pos)
+		return TupleV{}
+	}
+	models["time.Sleep"] = func(e *Engine, st *State, args []Value, call *ssa.Call, pos token.Pos) Value {
+		st.vtime = Bin("bvadd", st.now(), term(args[0]))
+		return TupleV{}
+	}
+	// errors.Is for errors without Is/Unwrap methods (the reflectlite comparability test is skipped:
+	// every error type reaching it here is a pointer or an empty struct)
+	models["errors.Is"] = func(e *Engine, st *State, args []Value, call *ssa.Call, pos token.Pos) Value {
+		a, ok1 := args[0].(Iface)
+		b, ok2 := args[1].(Iface)
+		if !ok1 || !ok2 {
+			panic(unsupported{"errors.Is on non-interface values"})
+		}
+		if a.typ != nil && a.typ != opaqueErrType {
+			ms := e.prog.MethodSets.MethodSet(a.typ)
+			for i := 0; i < ms.Len(); i++ {
+				if n := ms.At(i).Obj().Name(); n == "Is" || n == "Unwrap" {
+					panic(unsupported{"errors.Is on an error with " + n + " method: " + a.typ.String()})
+				}
+			}
+		}
+		return e.ifaceEq(st, a, b)
+	}
+	for _, n := range []string{"Load", "Store", "Delete", "Clear", "LoadOrStore", "LoadAndDelete", "Swap", "Range"} {
+		helper := "vSyncMap" + n
+		models["(*sync.Map)."+n] = func(e *Engine, st *State, args []Value, call *ssa.Call, pos token.Pos) Value {
+			h := e.target.Func(helper)
+			if h == nil {
+				panic(unsupported{"prelude helper " + helper + " missing"})
+			}
+			modelsUsed["sync.Map as an ordinary map (prelude helper)"]++
+			return tailCall{FuncV{fn: h}, args}
+		}
+	}
 	models["(*sync.Mutex).TryLock"] = func(e *Engine, st *State, args []Value, call *ssa.Call, pos token.Pos) Value { return Bool(true) }
 	models["time.Now"] = func(e *Engine, st *State, args []Value, call *ssa.Call, pos token.Pos) Value {
 		// time.Time{wall uint64, ext int64, loc *Location}: wall without the monotonic bit, ext = seconds since year 1.
